@@ -256,6 +256,7 @@ STALE_KEYS = {
     "schema": ["sch:tz"],
     "schema2": ["sch:general"],
     "schema_deleted": ["sch:tz"],
+    "device_removed": ["qdevs", "qgroups", "qwith:mbi", "qname:lpc5502"],
     "rd_device": ["dev:rdev1", "qinfo:rdev1", "qgroups"],
     "rd_defaults": ["devfeat:lpc5506/latest", "defaults:comm_buffer", "dev:lpc5506"],
     "rd_schema": ["sch:tz"],
@@ -273,6 +274,7 @@ STALE_TARGETS = {
     # a cached data file that is gone (editable install after switching branches, a restricted-data folder that was
     # unmounted): with the cache disabled the query fails, so it must fail with the cache too
     "schema_deleted": ("jsonschemas/sch_tz.yaml", None, None),
+    "device_removed": ("devices/lpc5502/database.yaml", None, None),  # the database shrinks: its caches become shorter
     # (paths are relative to the standard data folder)
     "rd_device": ("../restricted/data/devices/rdev1/database.yaml", r"^  purpose: .*$", "  purpose: Stale Series %d"),
     "rd_defaults": ("../restricted/data/common/database_defaults.yaml", r"^    size: 0x3000\s*$", "    size: 0x%d000"),
@@ -307,6 +309,11 @@ class DataState:
         self.gen += 1
         if pat is None:
             os.remove(path)
+            if os.path.basename(path) == "database.yaml":
+                try:
+                    os.rmdir(os.path.dirname(path))  # the whole device goes
+                except OSError:
+                    pass
             self.mods.append((target, 0))
             return True
         same_size = variant >= 3  # variants 3..5: an in-place edit that keeps the file size (only the mtime tells)
@@ -333,6 +340,7 @@ class DataState:
     def restore(self) -> None:
         for rel, content in self.orig.items():
             path = os.path.join(_W.scratch, "data", rel)
+            os.makedirs(os.path.dirname(path), exist_ok=True)
             with open(path, "wb") as f:
                 f.write(content)
             os.utime(path, ns=(MTIME_NS, MTIME_NS))
@@ -789,6 +797,43 @@ class Run:
             self.reference()
         self.log.add("stale", pi, ph["target"], ph.get("variant", 0))
 
+    def phase_tearsweep(self, ph: dict, pi: int) -> None:
+        """The real writer is killed at byte k of its rewrite of an outdated cache, for enumerated k: whatever the writer
+        leaves behind (a prefix with the shipped code; something else if the way of writing changes) must heal."""
+        wl = ph.get("workload", HEAL_WORKLOAD)
+        self.log.add("phase", pi, "tearsweep", ph["file"])
+        self.solo(wl, "tear sweep warm-up")
+        self.solo(wl, "tear sweep warm-up 2")
+        snap = {}
+        for which in ("quick", "data"):
+            pth = self.cache_file(which)
+            if pth is None:
+                raise HarnessError(f"warm-up left no {which} cache file")
+            with open(pth, "rb") as f:
+                snap[which] = (pth, f.read())
+        if self.ds.stale(ph["target"], ph.get("variant", 0)):
+            self.fault("stale_data_" + ph["target"])
+            self.reference()
+        commit_index = 0 if ph["file"] == "quick" else 1
+        n_old = len(snap[ph["file"]][1])
+        cuts = list(range(ph["from"], min(ph["to"], n_old + 64), ph.get("stride", 1)))
+        for k in cuts:
+            for which in ("quick", "data"):
+                pth, cont = snap[which]
+                with open(pth, "wb") as f:
+                    f.write(cont)
+            self.log.add("tear_at", ph["file"], k)
+            nrec = len(self.records)
+            sub = {"kind": "procs", "procs": [{"flavour": "normal", "workload": wl, "crash": {"tear_commit": commit_index, "abs": k}}], "sched": [], "sched_seed": 0}
+            self.phase_procs(sub, pi)
+            self.solo(wl, f"tear sweep {ph['file']} rewrite killed at byte {k}, second start")
+            p3 = self.solo(wl, f"tear sweep {ph['file']} rewrite killed at byte {k}, third start")
+            p4 = self.solo(wl, f"tear sweep {ph['file']} rewrite killed at byte {k}, fourth start")
+            self.check_healed(p4, f"tear sweep {ph['file']} killed at {k}")
+            if len(self.records) > nrec + 40:
+                break
+        self.sweep_cuts = getattr(self, "sweep_cuts", 0) + len(cuts)
+
     def solo(self, workload, where: str, flavour="normal") -> Proc:
         p = self.spawn(0, {"flavour": flavour, "workload": workload})
         self.run_alone(p)
@@ -892,6 +937,8 @@ class Run:
                     self.phase_heal(ph, pi)
                 elif kind == "sweep":
                     self.phase_sweep(ph, pi)
+                elif kind == "tearsweep":
+                    self.phase_tearsweep(ph, pi)
                 else:
                     raise HarnessError(f"unknown phase {kind}")
         finally:
@@ -946,8 +993,8 @@ def execute(plan: dict) -> dict:
 
 def families(tier: str):
     if tier == "quick":
-        return [("sched", 220), ("damage", 60), ("stale", 90), ("rd", 40), ("nocache", 50), ("sweepq", 32), ("sweepd", 12), ("sweepfull", 1)]
-    return [("sched", 12000), ("damage", 3000), ("stale", 3000), ("rd", 2000), ("nocache", 3000), ("sweepq", 700), ("sweepd", 900), ("full", 32), ("sweepfull", 6)]
+        return [("sched", 220), ("damage", 60), ("stale", 90), ("rd", 40), ("tearsweep", 48), ("nocache", 50), ("sweepq", 32), ("sweepd", 12), ("sweepfull", 1)]
+    return [("sched", 12000), ("damage", 3000), ("stale", 3000), ("rd", 2000), ("tearsweep", 300), ("nocache", 3000), ("sweepq", 700), ("sweepd", 900), ("full", 32), ("sweepfull", 6)]
 
 
 def _workload(rng: random.Random, n_max: int = 6, need_cfg: bool = False):
@@ -1061,6 +1108,13 @@ def _gen_plan(family: str, i: int, rng: random.Random, tier: str, targets=None) 
             ph["procs"][0]["flavour"] = "nocache"
         phases += [ph, {"kind": "heal"}]
         return {"profile": "tiny", "phases": phases}
+    if family == "tearsweep":
+        # the quick-info cache of the tiny profile has ~2900 bytes; run i covers a window of rewrite positions
+        width = 192 if tier == "quick" else 32
+        stride = 4 if tier == "quick" else 1
+        target = ["device_removed", "device", "defaults"][i % 3]
+        j = i // 3
+        return {"profile": "tiny", "phases": [{"kind": "tearsweep", "file": "quick", "target": target, "variant": 1, "from": j * width, "to": (j + 1) * width, "stride": stride}]}
     if family == "rd":
         # restricted-data and add-ons folders in use: the stale scenario aimed at their files, or a plain concurrent start
         if rng.random() < 0.65:
@@ -1085,8 +1139,8 @@ def _gen_plan(family: str, i: int, rng: random.Random, tier: str, targets=None) 
         phases = [warm, {"kind": "stale", "target": target, "variant": rng.randrange(6)}]
         n = rng.choice([1, 2, 2, 3])
         procs = [{"flavour": "normal", "workload": aimed(rng.randint(1, 3))} for _ in range(n)]
-        if rng.random() < 0.3:
-            procs[0]["crash"] = {"tear_commit": rng.randrange(2), "num": rng.randrange(8), "den": 8}
+        if rng.random() < 0.45:
+            procs[0]["crash"] = {"tear_commit": rng.randrange(2), "num": rng.randrange(1, 64), "den": 64}
         if n > 1:
             for p_ in procs:
                 r_ = rng.random()
